@@ -1562,4 +1562,41 @@ mod tests {
             "child should be safe-to-notar once its parent is fast-finalized via a received cert"
         );
     }
+    #[tokio::test]
+    async fn vote_creating_notar_and_fast_final_cert_for_gap_slot() {
+        // one validator's notar vote lifts a block from below 60% straight to 100%
+        let (sks, base) = generate_validators(2);
+        let mut validators = base.validators().to_vec();
+        validators[0].stake = crate::Stake::new(2);
+        validators[1].stake = crate::Stake::new(3);
+        let epoch_info = wrap_epoch_info(EpochInfo::new(validators));
+        let (votor_tx, _votor_rx) = mpsc::channel(1024);
+        let (repair_tx, _repair_rx) = mpsc::channel(1024);
+        let mut pool = PoolImpl::new(epoch_info.clone(), votor_tx, repair_tx);
+        let validated = |v: Vote| ValidatedVote::try_new(v, epoch_info.epoch_info()).unwrap();
+
+        // slot 2 is fast-finalized while slot 1 is still undecided
+        let hash2: BlockHash = Hash::random_for_test().into();
+        for v in 0..2 {
+            let vote = Vote::new_notar(Slot::new(2), hash2.clone(), &sks[v], ValidatorIndex::new(v as u64));
+            pool.add_vote(validated(vote)).await.unwrap();
+        }
+        assert_eq!(pool.finalized_slot(), Slot::new(2));
+        assert_eq!(pool.first_unpruned_slot(), Slot::genesis());
+
+        // slot 1 gets its finalization certificate first ...
+        for v in 0..2 {
+            let vote = Vote::new_final(Slot::new(1), &sks[v], ValidatorIndex::new(v as u64));
+            pool.add_vote(validated(vote)).await.unwrap();
+        }
+        // ... then the last notar vote creates its notarization and fast-finalization
+        // certificates together: the first one closes the gap and prunes slot 1
+        let hash1: BlockHash = Hash::random_for_test().into();
+        for v in 0..2 {
+            let vote = Vote::new_notar(Slot::new(1), hash1.clone(), &sks[v], ValidatorIndex::new(v as u64));
+            pool.add_vote(validated(vote)).await.unwrap();
+        }
+        assert_eq!(pool.first_unpruned_slot(), Slot::new(2));
+    }
+
 }
